@@ -26,10 +26,12 @@ def MStmt.slots : MStmt → List Slot
   | .bytes b f => [.bytes b f none]
   | .arr b f => [.arr b f]
   | .sub b f t => [.sub b f t none]
+  | .forInt b w e f => [.ints b w e f none]
   | _ => []
 
-/-- the statements `layoutZ` accepts: the straight-line fragment, and literal zero bytes in the data block -/
-def MStmt.FragZ (st : MStmt) : Prop := st.Frag ∨ ∃ n, st = .zeros .D n
+/-- the statements `layoutZ` accepts: the straight-line fragment, literal zero bytes in the data block, and `range`
+    loops over integer arrays -/
+def MStmt.FragZ (st : MStmt) : Prop := st.Frag ∨ (∃ n, st = .zeros .D n) ∨ (∃ b w e f, st = .forInt b w e f)
 
 theorem layoutM_cons' {st : MStmt} {r : List MStmt} {m : List Slot} (h : layoutZ (st :: r) = some m) :
     st.FragZ ∧ ∃ m', layoutZ r = some m' ∧ m = st.slots ++ m' := by
@@ -57,9 +59,11 @@ theorem layoutM_cons' {st : MStmt} {r : List MStmt} {m : List Slot} (h : layoutZ
   | zeros b n =>
     cases b with
     | P => simp [layoutZ] at h
-    | D => simp only [layoutZ] at h; exact ⟨Or.inr ⟨n, rfl⟩, m, h, rfl⟩
+    | D => simp only [layoutZ] at h; exact ⟨Or.inr (Or.inl ⟨n, rfl⟩), m, h, rfl⟩
   | forSub _ _ _ => simp [layoutZ] at h
-  | forInt _ _ _ _ => simp [layoutZ] at h
+  | forInt b w e f =>
+    simp only [layoutZ, Option.map_eq_some_iff] at h; obtain ⟨m', h1, rfl⟩ := h
+    exact ⟨Or.inr (Or.inr ⟨b, w, e, f, rfl⟩), m', h1, rfl⟩
   | ifNonZero _ _ => simp [layoutZ] at h
   | ifNonZeroArr _ _ => simp [layoutZ] at h
   | ifWordCount _ _ => simp [layoutZ] at h
@@ -92,9 +96,10 @@ theorem layout_field_mentioned (f : String) : ∀ (stmts : List MStmt) (m : List
     rw [List.map_append, List.mem_append] at hf
     rcases hf with hf | hf
     · refine ⟨st, List.mem_cons_self .., ?_⟩
-      rcases hfrag with hfrag | ⟨n, rfl⟩
+      rcases hfrag with hfrag | ⟨n, rfl⟩ | ⟨b, w, e, g, rfl⟩
       · cases hfrag <;> simp [MStmt.slots, Slot.field] at hf <;> simp [MStmt.mentions, hf]
       · simp [MStmt.slots] at hf
+      · simp [MStmt.slots, Slot.field] at hf; simp [MStmt.mentions, hf]
     · obtain ⟨st', h1, h2⟩ := layout_field_mentioned f r m' hl' hf
       exact ⟨st', List.mem_cons_of_mem _ h1, h2⟩
 
@@ -256,7 +261,7 @@ theorem same_step (C : Codecs) (andx : Bool) (f : String) (st : MStmt) (hfrag : 
       sa'.D = sa.D ++ db ∧ sb'.D = sb.D ++ db ∧ sa'.head = sa.head ∧ sb'.head = sb.head ∧
       (∀ m' off r, slotAt f ((st.slots ++ m').filter (·.blk == .P)) off = some r →
         slotAt f (m'.filter (·.blk == .P)) (off + pb.length) = some r) := by
-  rcases hfrag with hfrag | ⟨n, rfl⟩
+  rcases hfrag with hfrag | ⟨n, rfl⟩ | ⟨b, w, e, g, rfl⟩
   · exact same_step_frag C andx f st hfrag hno sa sb sa' sb' hag ha hb
   · rw [runMStmt] at ha hb
     simp only [Outcome.ok.injEq] at ha hb
@@ -264,6 +269,23 @@ theorem same_step (C : Codecs) (andx : Bool) (f : String) (st : MStmt) (hfrag : 
     refine ⟨hag, [], List.replicate n 0, by simp [MState.app], by simp [MState.app], rfl, rfl, rfl, rfl, ?_⟩
     intro m' off r h
     simpa [MStmt.slots] using h
+  · -- a loop over another field's integers: both runs see the same list
+    have hgf : g ≠ f := by simpa [MStmt.mentions] using hno
+    rw [runMStmt] at ha hb
+    rw [hag g hgf] at ha
+    split at hb <;> try cases hb
+    rename_i xs hg
+    rw [hg] at ha
+    simp only [Outcome.ok.injEq] at ha
+    subst ha
+    refine ⟨by cases b <;> exact hag, ?_⟩
+    cases b
+    · refine ⟨xs.flatMap (intBytes w e), [], rfl, rfl, by simp [MState.app], by simp [MState.app], rfl, rfl, ?_⟩
+      intro m' off r h
+      simp [MStmt.slots, Slot.blk, slotAt] at h
+    · refine ⟨[], xs.flatMap (intBytes w e), by simp [MState.app], by simp [MState.app], rfl, rfl, rfl, rfl, ?_⟩
+      intro m' off r h
+      simpa [MStmt.slots, Slot.blk] using h
 
 /-- statements none of which touches `f` append the same bytes in both runs -/
 theorem same_run (C : Codecs) (andx : Bool) (f : String) (stmts : List MStmt) :
@@ -361,10 +383,14 @@ theorem slotAt_first_stmt (f : String) (st : MStmt) (hfrag : st.FragZ) (m' : Lis
     (hnone : ∀ off, slotAt f (m'.filter (·.blk == .P)) off = none) (off0 off w : Nat)
     (h : slotAt f ((st.slots ++ m').filter (·.blk == .P)) off0 = some (off, w)) :
     off = off0 ∧ ((∃ e, st = .int .P w e f) ∨ (∃ e, st = .quad .P w e f) ∨ (st = .u8 .P f ∧ w = 1)) := by
-  rcases hfrag with hfrag | ⟨n, rfl⟩
+  rcases hfrag with hfrag | ⟨n, rfl⟩ | ⟨b, w', e, g, rfl⟩
   · exact slotAt_first_stmt_frag f st hfrag m' hnone off0 off w h
   · simp only [MStmt.slots, List.nil_append] at h
     rw [hnone] at h; cases h
+  · simp only [MStmt.slots, List.cons_append, List.nil_append] at h
+    cases b
+    · rw [filterP_cons_P _ _ rfl] at h; simp [slotAt] at h
+    · rw [filterP_cons_D _ _ rfl, hnone] at h; cases h
 
 /-- the two runs up to, through and after the one statement that touches `f` -/
 theorem locality_run (C : Codecs) (andx : Bool) (f : String) (stmts : List MStmt) :
@@ -440,11 +466,14 @@ theorem runMStmt_head_frag (C : Codecs) (andx : Bool) (s s' : MState) (st : MStm
 
 theorem runMStmt_head (C : Codecs) (andx : Bool) (s s' : MState) (st : MStmt) (hf : st.FragZ)
     (h : runMStmt C andx s st = .ok s') : s'.head = s.head := by
-  rcases hf with hf | ⟨n, rfl⟩
+  rcases hf with hf | ⟨n, rfl⟩ | ⟨b, w, e, g, rfl⟩
   · exact runMStmt_head_frag C andx s s' st hf h
   · rw [runMStmt] at h
     simp only [Outcome.ok.injEq] at h
     subst h; rfl
+  · rw [runMStmt] at h
+    split at h <;> try cases h
+    cases b <;> rfl
 
 theorem runMStmts_head (C : Codecs) (andx : Bool) (stmts : List MStmt) :
     ∀ (m : List Slot) (s s' : MState), layoutZ stmts = some m → runMStmts C andx s stmts = .ok s' →
